@@ -43,6 +43,7 @@ enum Behav {
 	B_RESP_PLUS_ERROR,    // version 2: an authentic PDU that carries the honest response payload and an error payload
 	B_V1_REFLECT,         // version 1: the client's own header, request and MAC with an (uncovered) response payload spliced in
 	B_PUB_SHIFTED_NO_AGG, // ext: the genuine chain's links and input, no aggregation-time element, and another publication time (stands for another second)
+	B_METADATA_IMPRINT_LIKE, // aggr: one link carries an unpadded metadata record of 33 octets that starts with 0x01 (could be read as a SHA-256 imprint)
 	B__COUNT
 };
 const char *behav_name(int b);
